@@ -206,6 +206,12 @@ def check_state(case):
         with sut("probing"):
             mc = w.controller()
             si = mc.get_system_info()
+        with sut("probing again"):
+            si_again = mc.get_system_info()
+        require(dict(si_again) == dict(si) and
+                (si_again.width, si_again.height) == (si.width, si.height),
+                "probing the same machine a second time with the same "
+                "controller gives a different description", {})
         require(set(si) == responding, "get_system_info does not report "
                 "exactly the responding chips",
                 {"missing": sorted(map(list, responding - set(si)))[:6],
